@@ -167,8 +167,10 @@ def run(ctx):
     if not ctx.thorough:
         picks = [0, 2, 5, 6] if rng.random() < 0.5 else [1, 3, 4, 7]
         combos = [combos[i] for i in picks]
-    nel = 3 if ctx.thorough else 2
-    nsteps = 4 if ctx.thorough else 3
+    nel = 4 if ctx.thorough else 2
+    nsteps = 6 if ctx.thorough else 3
+    if ctx.thorough:
+        combos = combos * 3          # three different loads and placements per formulation
 
     def add(rec, where):
         rec["id"] = len(records) + 1
